@@ -389,12 +389,14 @@ func c07Run(t *testing.T, c *vkit.Check, known *c07Dropped, cs c07Case, memo map
 func c07Seqs(n, minLen, maxLen int) [][]int { return vkit.AllSequences(n, minLen, maxLen) }
 
 // c07Reoffers lists the second offers for a first offer: one section replaced by
-// another alternative of the same media type, or one section appended.
+// another alternative (of the same or of another media type), or one section appended.
 func c07Reoffers(first []int, appendToo bool) [][]int {
 	var out [][]int
 	for p, a := range first {
 		for b := range c07Alts {
-			if b != a && c07Alts[b].Media == c07Alts[a].Media {
+			// also by an alternative of ANOTHER media type: an offerer may change the media type of a stream in a
+			// later offer (RFC 3264 8.3.3), the answer has to follow
+			if b != a {
 				r := append([]int{}, first...)
 				r[p] = b
 				out = append(out, r)
@@ -413,7 +415,7 @@ func c07Reoffers(first []int, appendToo bool) [][]int {
 func TestVerifC07(t *testing.T) {
 	c := vkit.New("C07", "exploration")
 	defer c.Finish(t)
-	c.Rule("case = (first offer: every sequence of 1..N section alternatives, alternative = media type {audio, video, application, text, message} x direction attribute {sendrecv, sendonly, recvonly, inactive, none} x codec list {supported, unsupported only, mixed} (audio/video only), mids = 2,0,1 by position; local side {none, a recvonly transceiver per offered audio/video section, a sendrecv transceiver with track per offered audio/video section, recvonly transceivers of the audio/video kinds NOT offered}; MediaEngine {default, opus only}); SetRemoteDescription -> CreateAnswer on a fresh PeerConnection. Re-offer part: a second offer on the same PeerConnection after SetLocalDescription(answer) that replaces one section by another alternative of the same media type or appends a section. Non-trivial = CreateAnswer succeeded and the answer mirrors the offer, classed by (sections, rejected sections, round, local side, engine)")
+	c.Rule("case = (first offer: every sequence of 1..N section alternatives, alternative = media type {audio, video, application, text, message} x direction attribute {sendrecv, sendonly, recvonly, inactive, none} x codec list {supported, unsupported only, mixed} (audio/video only), mids = 2,0,1 by position; local side {none, a recvonly transceiver per offered audio/video section, a sendrecv transceiver with track per offered audio/video section, recvonly transceivers of the audio/video kinds NOT offered}; MediaEngine {default, opus only}); SetRemoteDescription -> CreateAnswer on a fresh PeerConnection. Re-offer part: a second offer on the same PeerConnection after SetLocalDescription(answer) that replaces one section by another alternative (of the same or of another media type) or appends a section. Non-trivial = CreateAnswer succeeded and the answer mirrors the offer, classed by (sections, rejected sections, round, local side, engine)")
 	c.Assume("only what the statement says is judged: section count, order, media type and a=mid per section; whether an accepted or rejected section SHOULD have been accepted is not judged")
 	c.Assume("cases where SetRemoteDescription or CreateAnswer returns an error are not judged (the statement is about successful CreateAnswer)")
 	known := &c07Dropped{m: map[string]bool{}}
